@@ -139,42 +139,65 @@ theorem wt_noDead (vtys : List CSem.Ty) (ret : CSem.Ty) (st : Stmt) : ∀ (lb lc
     split at h
     · cases h; simp [noDead, declTys]
     · cases h
+  | adecl i t n xb =>
+    intro lb lc nd nd' h
+    simp only [Stmt.wt] at h
+    split at h
+    · cases h; simp [noDead, declTys]
+    · cases h
+  | aload d dt a t n xb x =>
+    intro lb lc nd nd' h
+    simp only [Stmt.wt] at h
+    split at h
+    · cases h; simp [noDead, declTys]
+    · cases h
+  | astore a t n xb x v =>
+    intro lb lc nd nd' h
+    simp only [Stmt.wt] at h
+    split at h
+    · cases h; simp [noDead, declTys]
+    · cases h
 
 /-! ## The simulation statement -/
 
 /-- Every call names a function of the program `P` with the declared types (`CSem2.callsOK`, in the form the
-    statement lemmas decompose); nothing is required when `P` is empty. -/
-def frag (P : List CSem2.Func) : Stmt → Bool
+    statement lemmas decompose), nothing being required when `P` is empty; and the array statements agree
+    with the layout `cnts` (`CSem2.arrsOK`). -/
+def frag (P : List CSem2.Func) (cnts : List Nat) : Stmt → Bool
   | .skip | .decl .. | .assign .. | .incdec .. | .expr _ | .ret _ | .break_ | .continue_ => true
-  | .seq a b => frag P a && frag P b
-  | .ite _ a => frag P a
-  | .itee _ a b => frag P a && frag P b
-  | .while_ _ b => frag P b
-  | .dowhile b _ => frag P b
-  | .for_ _ st b => frag P st && frag P b
+  | .seq a b => frag P cnts a && frag P cnts b
+  | .ite _ a => frag P cnts a
+  | .itee _ a b => frag P cnts a && frag P cnts b
+  | .while_ _ b => frag P cnts b
+  | .dowhile b _ => frag P cnts b
+  | .for_ _ st b => frag P cnts st && frag P cnts b
   | .case_ _ | .default_ => true
-  | .switch_ _ b => frag P b
+  | .switch_ _ b => frag P cnts b
   | .call dst rt fn args => P.isEmpty || callsOK P (.call dst rt fn args)
+  | .adecl i t n xb => arrsOK cnts (.adecl i t n xb)
+  | .aload d dt a t n xb x => arrsOK cnts (.aload d dt a t n xb x)
+  | .astore a t n xb x v => arrsOK cnts (.astore a t n xb x v)
 
-theorem frag_of_callsOK (P : List CSem2.Func) (st : Stmt) (h : callsOK P st = true) : frag P st = true := by
-  induction st <;> simp_all [frag, callsOK]
+theorem frag_of_callsOK (P : List CSem2.Func) (cnts : List Nat) (st : Stmt) (h : callsOK P st = true)
+    (ha : arrsOK cnts st = true) : frag P cnts st = true := by
+  induction st <;> simp_all [frag, callsOK, arrsOK]
 
 /-- in a single function (`P = []`) no call is ever executed: nothing is required of it -/
-theorem frag_nil (st : Stmt) : frag [] st = true := by
-  induction st <;> simp_all [frag]
+theorem frag_nil (cnts : List Nat) (st : Stmt) (ha : arrsOK cnts st = true) : frag [] cnts st = true := by
+  induction st <;> simp_all [frag, arrsOK]
 
 /-- Executions of at most `fuel` are simulated (see `Post`). -/
 def SimStmt (T : Stat) (fuel : Nat) : Prop :=
   ∀ (st : Stmt) (s : Store) (out : CSem2.Outcome) (lp : Bool × Bool) (brk cont : String) (c : SCtx)
     (nd nd' : Nat) (pre post : List Item) (env : Env) (M : Mem),
     exec T.S.cs T.P fuel s st = some out →
-    frag T.P st = true →
+    frag T.P T.cnts st = true →
     Stmt.wt T.vtys T.ret lp.1 lp.2 nd st = some nd' →
     Pos T c nd pre →
     Ext T (funcstmt T.S.cs brk cont st c).ctx →
     T.S.its = pre ++ (funcstmt T.S.cs brk cont st c).items ++ post →
     ((lp.1 = true → CanJump T.S brk) ∧ (lp.2 = true → CanJump T.S cont)) →
-    SInv T.M0 T.S.cs T.σ T.vtys s env M →
+    SInv T.M0 T.S.cs T.cnts T.σ T.vtys s env M →
     Post T lp brk cont (T.at env M pre) (pre ++ (funcstmt T.S.cs brk cont st c).items)
       (funcstmt T.S.cs brk cont st c).ctx out
 
@@ -183,7 +206,7 @@ variable (T : Stat) {s : Store} {out : CSem2.Outcome} {lp : Bool × Bool} {brk c
   {nd nd' : Nat} {pre post : List Item} {env : Env} {M : Mem}
 
 theorem sim_skip (n : Nat) (hex : exec T.S.cs T.P (n + 1) s .skip = some out) (hp : Pos T c nd pre)
-    (inv : SInv T.M0 T.S.cs T.σ T.vtys s env M) :
+    (inv : SInv T.M0 T.S.cs T.cnts T.σ T.vtys s env M) :
     Post T lp brk cont (T.at env M pre) (pre ++ (funcstmt T.S.cs brk cont .skip c).items)
       (funcstmt T.S.cs brk cont .skip c).ctx out := by
   simp only [exec, Option.some.injEq] at hex
@@ -193,7 +216,7 @@ theorem sim_skip (n : Nat) (hex : exec T.S.cs T.P (n + 1) s .skip = some out) (h
 
 theorem sim_break (n : Nat) (hex : exec T.S.cs T.P (n + 1) s .break_ = some out)
     (hwt : Stmt.wt T.vtys T.ret lp.1 lp.2 nd .break_ = some nd') (hp : Pos T c nd pre)
-    (inv : SInv T.M0 T.S.cs T.σ T.vtys s env M) :
+    (inv : SInv T.M0 T.S.cs T.cnts T.σ T.vtys s env M) :
     Post T lp brk cont (T.at env M pre) (pre ++ (funcstmt T.S.cs brk cont .break_ c).items)
       (funcstmt T.S.cs brk cont .break_ c).ctx out := by
   simp only [exec, Option.some.injEq] at hex
@@ -209,7 +232,7 @@ theorem sim_break (n : Nat) (hex : exec T.S.cs T.P (n + 1) s .break_ = some out)
 
 theorem sim_continue (n : Nat) (hex : exec T.S.cs T.P (n + 1) s .continue_ = some out)
     (hwt : Stmt.wt T.vtys T.ret lp.1 lp.2 nd .continue_ = some nd') (hp : Pos T c nd pre)
-    (inv : SInv T.M0 T.S.cs T.σ T.vtys s env M) :
+    (inv : SInv T.M0 T.S.cs T.cnts T.σ T.vtys s env M) :
     Post T lp brk cont (T.at env M pre) (pre ++ (funcstmt T.S.cs brk cont .continue_ c).items)
       (funcstmt T.S.cs brk cont .continue_ c).ctx out := by
   simp only [exec, Option.some.injEq] at hex
@@ -228,7 +251,7 @@ theorem sim_continue (n : Nat) (hex : exec T.S.cs T.P (n + 1) s .continue_ = som
 theorem sim_label (n : Nat) (st : Stmt) (hst : (∃ u, st = .case_ u) ∨ st = .default_)
     (hex : exec T.S.cs T.P (n + 1) s st = some out) (hp : Pos T c nd pre)
     (hits : T.S.its = pre ++ (funcstmt T.S.cs brk cont st c).items ++ post)
-    (inv : SInv T.M0 T.S.cs T.σ T.vtys s env M) :
+    (inv : SInv T.M0 T.S.cs T.cnts T.σ T.vtys s env M) :
     Post T lp brk cont (T.at env M pre) (pre ++ (funcstmt T.S.cs brk cont st c).items)
       (funcstmt T.S.cs brk cont st c).ctx out := by
   rcases hst with ⟨u, rfl⟩ | rfl
@@ -249,7 +272,7 @@ theorem sim_exprstmt (n : Nat) (e : Expr) (hex : exec T.S.cs T.P (n + 1) s (.exp
     (hwt : Stmt.wt T.vtys T.ret lp.1 lp.2 nd (.expr e) = some nd') (hp : Pos T c nd pre)
     (hext : Ext T (funcstmt T.S.cs brk cont (.expr e) c).ctx)
     (hits : T.S.its = pre ++ (funcstmt T.S.cs brk cont (.expr e) c).items ++ post)
-    (inv : SInv T.M0 T.S.cs T.σ T.vtys s env M) :
+    (inv : SInv T.M0 T.S.cs T.cnts T.σ T.vtys s env M) :
     Post T lp brk cont (T.at env M pre) (pre ++ (funcstmt T.S.cs brk cont (.expr e) c).items)
       (funcstmt T.S.cs brk cont (.expr e) c).ctx out := by
   simp only [exec, Option.map_eq_some_iff] at hex
@@ -266,7 +289,7 @@ theorem sim_ret (n : Nat) (e : Expr) (hex : exec T.S.cs T.P (n + 1) s (.ret e) =
     (hwt : Stmt.wt T.vtys T.ret lp.1 lp.2 nd (.ret e) = some nd') (hp : Pos T c nd pre)
     (hext : Ext T (funcstmt T.S.cs brk cont (.ret e) c).ctx)
     (hits : T.S.its = pre ++ (funcstmt T.S.cs brk cont (.ret e) c).items ++ post)
-    (inv : SInv T.M0 T.S.cs T.σ T.vtys s env M) :
+    (inv : SInv T.M0 T.S.cs T.cnts T.σ T.vtys s env M) :
     Post T lp brk cont (T.at env M pre) (pre ++ (funcstmt T.S.cs brk cont (.ret e) c).items)
       (funcstmt T.S.cs brk cont (.ret e) c).ctx out := by
   simp only [exec, Option.map_eq_some_iff] at hex
@@ -289,7 +312,7 @@ theorem sim_ret (n : Nat) (e : Expr) (hex : exec T.S.cs T.P (n + 1) s (.ret e) =
 
 theorem sim_decl_none (n : Nat) (i : Nat) (t : CSem.Ty)
     (hex : exec T.S.cs T.P (n + 1) s (.decl i t none) = some out) (hp : Pos T c nd pre)
-    (inv : SInv T.M0 T.S.cs T.σ T.vtys s env M) :
+    (inv : SInv T.M0 T.S.cs T.cnts T.σ T.vtys s env M) :
     Post T lp brk cont (T.at env M pre) (pre ++ (funcstmt T.S.cs brk cont (.decl i t none) c).items)
       (funcstmt T.S.cs brk cont (.decl i t none) c).ctx out := by
   simp only [exec, Option.some.injEq] at hex
@@ -302,9 +325,9 @@ theorem sim_store (k : Nat) (t : CSem.Ty) (val : Val) (slot : Nat) {pos : List I
     (hits : T.S.its = pos ++ storeIns t val slot :: post) (hslot : T.σ.getD k 0 = slot)
     (hkt : T.vtys[k]? = some t) {v : Int} {r : RVal} (hval : readVal T.S.p env val = .ok r)
     (hv : InRange (t.intTy T.S.cs) v) (hr : Rep t v r)
-    (inv : SInv T.M0 T.S.cs T.σ T.vtys s env M) :
+    (inv : SInv T.M0 T.S.cs T.cnts T.σ T.vtys s env M) :
     ∃ M', T.Reach 1 (T.at env M pos) (T.at env M' (pos ++ [storeIns t val slot])) ∧
-      SInv T.M0 T.S.cs T.σ T.vtys (s.set k (some v)) env M' := by
+      SInv T.M0 T.S.cs T.cnts T.σ T.vtys (s.set k (some v)) env M' := by
   obtain ⟨a, M', h1, h2, h3⟩ := inv.store hkt hv (storeVal_of_rep hr)
   rw [hslot] at h1
   exact ⟨M', run_nores T hits (readVals_two hval (readVal_tmp h1)) h2, h3⟩
@@ -314,7 +337,7 @@ theorem sim_assign (n : Nat) (i : Nat) (t : CSem.Ty) (e : Expr)
     (hwt : Stmt.wt T.vtys T.ret lp.1 lp.2 nd (.assign i t e) = some nd') (hp : Pos T c nd pre)
     (hext : Ext T (funcstmt T.S.cs brk cont (.assign i t e) c).ctx)
     (hits : T.S.its = pre ++ (funcstmt T.S.cs brk cont (.assign i t e) c).items ++ post)
-    (inv : SInv T.M0 T.S.cs T.σ T.vtys s env M) :
+    (inv : SInv T.M0 T.S.cs T.cnts T.σ T.vtys s env M) :
     Post T lp brk cont (T.at env M pre) (pre ++ (funcstmt T.S.cs brk cont (.assign i t e) c).items)
       (funcstmt T.S.cs brk cont (.assign i t e) c).ctx out := by
   simp only [exec, Option.map_eq_some_iff] at hex
@@ -346,7 +369,7 @@ theorem sim_decl_init (n : Nat) (i : Nat) (t : CSem.Ty) (e : Expr)
     (hwt : Stmt.wt T.vtys T.ret lp.1 lp.2 nd (.decl i t (some e)) = some nd') (hp : Pos T c nd pre)
     (hext : Ext T (funcstmt T.S.cs brk cont (.decl i t (some e)) c).ctx)
     (hits : T.S.its = pre ++ (funcstmt T.S.cs brk cont (.decl i t (some e)) c).items ++ post)
-    (inv : SInv T.M0 T.S.cs T.σ T.vtys s env M) :
+    (inv : SInv T.M0 T.S.cs T.cnts T.σ T.vtys s env M) :
     Post T lp brk cont (T.at env M pre) (pre ++ (funcstmt T.S.cs brk cont (.decl i t (some e)) c).items)
       (funcstmt T.S.cs brk cont (.decl i t (some e)) c).ctx out := by
   simp only [exec, Option.map_eq_some_iff] at hex
